@@ -254,6 +254,10 @@ def sym_chunk(eng, kind, name):
         return new_deferred(eng, BYT, counter_fn(eng, B, []), sized=n), B, n
     if kind == "D":
         return new_deferred(eng, BYT, counter_fn(eng, B, [])), B, slen(B)
+    if kind == "A":
+        # ready bytes that are a bytearray, not bytes ('.ascii' / '.asciz' build one): a Concatenator keeps such an element apart from its neighbours
+        from pyvc.engine import ByteBuf
+        return ByteBuf(B), B, slen(B)
     if kind == "N":
         # an unsized chunk that cannot be computed yet while anything is speculative (its body calls not_ready()): its length() stays pending
         # when it is asked for, so the sum of lengths is built with int + pending
@@ -329,6 +333,7 @@ vals = [bytes([65 + i]) * (i + 1) for i in range(len(kinds))]
 def mk(k, v):
     if k == "b": return v
     if k == "S": return SizedDeferred(bytes, len(v), lambda v=v: v)
+    if k == "A": return bytearray(v)
     if k == "N":
         from pdpy11.deferred import not_ready
         def body(v=v):
@@ -975,7 +980,8 @@ def all_units():
     for kinds in itertools.product(("b", "S", "D"), repeat=3):
         us.append(("concat[%s,right]" % "".join(kinds), "unit_concat", dict(kinds=kinds, assoc="right")))
         us.append(("concat[%s,pairs]" % "".join(kinds), "unit_concat", dict(kinds=kinds, assoc="pairs")))
-    for kinds in (("b", "N"), ("N", "b"), ("S", "N"), ("N", "N"), ("b", "N", "b"), ("b", "S", "N"), ("S", "N", "S"), ("N", "b", "N")):
+    for kinds in (("b", "N"), ("N", "b"), ("S", "N"), ("N", "N"), ("b", "N", "b"), ("b", "S", "N"), ("S", "N", "S"), ("N", "b", "N"),
+                  ("N", "A"), ("S", "A"), ("A", "N"), ("N", "A", "b"), ("S", "A", "N"), ("N", "A", "A")):
         for assoc in ("left", "right"):
             us.append(("concat[%s,%s]" % ("".join(kinds), assoc), "unit_concat", dict(kinds=kinds, assoc=assoc)))
     for kinds in (("b", "S", "b", "S"), ("S", "b", "b", "D"), ("b", "b", "S", "S"), ("S", "S", "b", "b"), ("b", "D", "b", "D")):
